@@ -402,6 +402,9 @@ func registerIntrinsics(e *Engine) {
 	registerStrconvModels(e)
 	registerTrimModels(e)
 	registerValidateModels(e)
+	registerParseIntModels(e)
+	registerSwagConvertBool(e)
+	registerAtomicModels(e)
 }
 
 // ---------------------------------------------------------------------------
@@ -719,30 +722,10 @@ func registerLibModels(e *Engine) {
 		iv := a[0].(*IfaceVal)
 		var nat interface{}
 		if iv.T != nil {
-			switch t := iv.V.(type) {
-			case *StrVal:
-				if !t.IsConcrete() {
-					panic(unsupported("json.Marshal of symbolic string"))
-				}
-				nat = t.Conc()
-			case *Term:
-				if !t.IsConst() {
-					panic(unsupported("json.Marshal of symbolic scalar"))
-				}
-				switch t.S.K {
-				case KBool:
-					nat = t.Val == 1
-				case KBV:
-					if isSigned(iv.T) {
-						nat = signExt(t.Val, t.S.W)
-					} else {
-						nat = t.Val
-					}
-				default:
-					nat = t.fval()
-				}
-			default:
-				panic(unsupported("json.Marshal of " + iv.T.String()))
+			var ok bool
+			nat, ok = concreteToNative(iv.V, iv.T)
+			if !ok {
+				panic(unsupported("json.Marshal of " + iv.T.String() + " (symbolic or unsupported kind)"))
 			}
 		}
 		b, err := json.Marshal(nat)
@@ -781,6 +764,7 @@ func registerLibModels(e *Engine) {
 		panic(unsupported("swag.IsZero on " + iv.T.String()))
 	})
 	always("os.Getenv", func(x *Exec, a []Value) Value { return mkStr("") })
+	always("os.Getwd", func(x *Exec, a []Value) Value { return TupleVal{mkStr("/work"), nilIface} })
 	always("log.New", func(x *Exec, a []Value) Value { return nilPtr })
 	always("reflect.DeepEqual", func(x *Exec, a []Value) Value { return x.deepEqual(a[0], a[1]) })
 
@@ -1099,6 +1083,55 @@ func (x *Exec) deepEqual(a, b Value) *Term {
 
 var _ = math.Abs
 var _ = sort.Strings
+
+// concreteToNative: a concrete scalar, or slice of them, as a native Go value for encoding/json
+func concreteToNative(v Value, t types.Type) (interface{}, bool) {
+	switch tv := v.(type) {
+	case *StrVal:
+		if !tv.IsConcrete() {
+			return nil, false
+		}
+		return tv.Conc(), true
+	case *Term:
+		if !tv.IsConst() {
+			return nil, false
+		}
+		switch tv.S.K {
+		case KBool:
+			return tv.Val == 1, true
+		case KBV:
+			if isSigned(t) {
+				return signExt(tv.Val, tv.S.W), true
+			}
+			return tv.Val, true
+		default:
+			return tv.fval(), true
+		}
+	case *SliceVal:
+		st, ok := t.Underlying().(*types.Slice)
+		if !ok {
+			return nil, false
+		}
+		if tv.Nil {
+			return nil, true
+		}
+		out := make([]interface{}, tv.Len)
+		for i := 0; i < tv.Len; i++ {
+			e, ok := concreteToNative(tv.At(i), st.Elem())
+			if !ok {
+				return nil, false
+			}
+			out[i] = e
+		}
+		return out, true
+	case *IfaceVal:
+		if tv.T == nil {
+			return nil, true
+		}
+		return concreteToNative(tv.V, tv.T)
+	}
+	return nil, false
+}
 
 // jsonToValue: a decoded concrete JSON value as a value of Go type t (scalars and slices of them)
 func jsonToValue(raw interface{}, t types.Type) (Value, bool) {
